@@ -770,6 +770,12 @@ Proof.
   intros pg act sel Hst. rewrite Hst in Ist. now destruct Ist.
 Qed.
 
+Lemma fine_ed_set_layout (e : editor') L : Inv e -> fine (ed_set_layout dops sops e L).
+Proof.
+  intros [[W Dk Sy Pp] Ist]. unfold ed_set_layout. apply fine_clamp_page; unfold ed_set_layout_pinned; cbn [sh st opts set_syl]; [exact Pp|].
+  intros pg act sel Hst. rewrite Hst in Ist. destruct Ist as (Hs & _). eapply sel_inv_view; [|exact Hs]. reflexivity.
+Qed.
+
 Lemma fine_with_phrase_sel (e : editor') f : Inv e -> (forall pg act p, ps_ok p -> fine (f pg act p)) -> fine (with_phrase_sel e f).
 Proof.
   intros [_ Ist] Hf. unfold with_phrase_sel. destruct (st e) as [| |pg act [p|y|sy]|mv]; try exact I.
@@ -812,6 +818,7 @@ Proof.
   - now destruct (fine_ed_jumps e Hi) as (A & B & C & E).
   - now apply fine_ed_learn_c.
   - now apply fine_ed_unlearn_c.
+  - now apply fine_ed_set_layout.
 Qed.
 
 Theorem fine_run ops : forall (e : editor'), Forall op_fine ops -> Inv e -> fine (run dops sops conv e ops).
